@@ -309,6 +309,18 @@ func c13R2(c *Ctx) {
 	}
 	capOK := derivesFrom(sem.Size, func(v ssa.Value) bool { return loadedField(v) == parF })
 	c.verdict(capOK, rule, "capacity", c.pos(ig.parent.Pos()), "semaphore capacity is the received parallelism", "the semaphore's capacity is not the `parallelism` of the received input: the bound on concurrent sub-runs is wrong")
+	// the capacity is whatever the workflow author wrote (the schema sets a minimum of 1 and no maximum; a huge value is the
+	// usual spelling of "unlimited"): only a zero-size element type makes the buffer free of charge
+	zeroSize := false
+	if ch, ok := sem.Type().Underlying().(*types.Chan); ok {
+		if st, ok := ch.Elem().Underlying().(*types.Struct); ok && st.NumFields() == 0 {
+			zeroSize = true
+		}
+		if at, ok := ch.Elem().Underlying().(*types.Array); ok && at.Len() == 0 {
+			zeroSize = true
+		}
+	}
+	c.verdict(zeroSize, rule, "slot-size", c.instrPos(sem), "the semaphore's elements have size zero, so any capacity can be allocated", "the semaphore's element type has a non-zero size while its capacity is the unbounded `parallelism` input: make(chan T, n) allocates n*sizeof(T) up front, so a large (legal) parallelism panics with `makechan: size out of range` or exhausts memory in the step's goroutine")
 	// Execute dominated by the send case
 	var exec *ssa.Call
 	for _, f := range ig.fns(c) {
